@@ -204,6 +204,10 @@ type c20render struct {
 
 var c20renders = []c20render{{"yaml", false, false}, {"json", true, false}, {"yaml+content", false, true}, {"json+content", true, true}}
 
+// lastRaw is the byte slice returned by the most recent rendering (kept WITHOUT copying: a renderer that
+// hands out memory it later reuses would change it behind the caller's back).
+var lastRaw []byte
+
 func c20do(p *types.Project, r c20render) (string, error) {
 	var b []byte
 	var err error
@@ -223,6 +227,7 @@ func c20do(p *types.Project, r c20render) (string, error) {
 	if perr != nil {
 		return "", perr
 	}
+	lastRaw = b
 	return string(b), err
 }
 
@@ -381,10 +386,35 @@ func (c20) Run(c *core.Ctx) {
 				for _, h := range hists {
 					// each history on a fresh copy of the project (the library's own deep copy is not trusted here)
 					cp := snapshotOf(pr.p)
+					type held struct {
+						raw  []byte
+						copy string
+						r    c20render
+					}
+					var kept []held
 					for i, ri := range h {
 						n++
+						lastRaw = nil
 						if v := c20checkRender(m, cp, c20renders[ri], fmt.Sprintf("%s after renderings %v", pr.where, h[:i])); v != nil {
 							return core.Outcome{Class: "viol", Sample: sample, Viol: v}
+						}
+						// outputs handed out earlier must still read the same, and still not contain a canary
+						for _, k := range kept {
+							if string(k.raw) != k.copy {
+								leak := ""
+								if !k.r.with {
+									for _, o := range append(append([]c20obj{}, m.secrets...), m.configs...) {
+										if o.kind == "environment" && c20leaks(string(k.raw), o.canary) != "" {
+											leak = " and now shows the value of " + o.name
+										}
+									}
+								}
+								return core.Outcome{Class: "viol", Sample: sample, Viol: &core.Violation{Key: "returned-output-overwritten:" + k.r.name,
+									Msg: fmt.Sprintf("%s: the bytes returned by an earlier %s rendering were changed by a later %s rendering%s (%s, history %v)", m.id, k.r.name, c20renders[ri].name, leak, pr.where, h)}}
+							}
+						}
+						if lastRaw != nil {
+							kept = append(kept, held{lastRaw, string(lastRaw), c20renders[ri]})
 						}
 					}
 				}
